@@ -92,6 +92,11 @@ CHECKS = {
          "Layers with prefetch landmark / no-prefetch landmark / none on the L2 stack with varied prefetch size, async threshold, chunk sizes, both stores: after Prefetch+Wait (write-behind drained) reading every prioritized file causes no registry request; a no-prefetch layer causes no prefetch traffic; without landmarks min(size, blob) bytes are covered; after a successful BackgroundFetch every file reads with the registry down; Wait returns while a stalled prefetch request is still held (30x watchdog), failures and stalls injected, concurrent/repeated calls, prioritized tasks during background fetch. L3 stage: real Mount -> first Check ordering. Holds on the cases executed.",
          "Trusted: memreg's request log is complete (every request passes its RoundTripper). Clause A' (reads after dropping the compressed-blob cache) goes beyond the statement and is declared as an assumption in the evidence.",
          "DESIGN.md section 5 C15"),
+ "C16": ("exploration",
+         "history-free reference model over generated lookup/use/release histories, porcupine counter model, real FUSE tree stage + Go race detector",
+         "The real store.LayerManager on memreg (2-3 images x 1-4 layers) driven through build-tagged shims: 18 directed minimal scenarios, seeded sequences (use, release incl. at zero, lookup of diff/blob/info, reads through a held layer, explicit TTL expiry, five fault kinds with recovery, unknown digests), concurrent clients checked with porcupine (counter per key) under the race detector, and store.Mount driven by syscalls (stat/open/read, open(use, O_CREAT), rmdir). Oracle: a lookup succeeds iff the image has a layer with that verified TOC digest and no fault is injected now, never for another digest; counts equal the model and never go negative; a layer in use stays readable across cache expiry; after an image's last release no layer or memo of it remains and the next lookup resolves afresh. Holds on the histories executed.",
+         "Trusted: porcupine v1.3.0, gen.Model for content, memreg's request log. Error kinds are not judged.",
+         "DESIGN.md section 5 C16"),
 }
 
 PENDING_REASON = "check not built yet in this session (work in progress; DESIGN.md section 5 describes the planned runtime monitor)"
